@@ -206,7 +206,7 @@ func (p *Prog) moduleSuppliedFuncParam(prm *ssa.Parameter) bool {
 	if fn == nil || fn.Parent() != nil {
 		return false
 	}
-	if fn.Signature.Recv() != nil || token.IsExported(fn.Name()) && !strings.Contains(fn.Pkg.Pkg.Path()+"/", "/internal/") {
+	if fn.Signature.Recv() != nil && token.IsExported(fn.Name()) || token.IsExported(fn.Name()) && !strings.Contains(fn.Pkg.Pkg.Path()+"/", "/internal/") {
 		return false // callable by the user (directly or through an interface)
 	}
 	sites, asValue := p.staticCallSites(fn)
@@ -228,6 +228,19 @@ func (p *Prog) moduleSuppliedFuncParam(prm *ssa.Parameter) bool {
 		case *ssa.Function:
 		case *ssa.MakeClosure:
 			_ = a
+		case *ssa.Extract:
+			// the value found in a package-level table of the module (kernels looked up by comparator)
+			lk, ok := a.Tuple.(*ssa.Lookup)
+			if !ok || a.Index != 0 {
+				return false
+			}
+			ld, ok := lk.X.(*ssa.UnOp)
+			if !ok || ld.Op != token.MUL {
+				return false
+			}
+			if g, ok := ld.X.(*ssa.Global); !ok || g.Pkg == nil || !inModule(g.Pkg.Pkg) || token.IsExported(g.Name()) {
+				return false
+			}
 		default:
 			return false
 		}
@@ -296,4 +309,119 @@ func (p *Prog) impliesEmptyNull(v ssa.Value) bool {
 		return false
 	}
 	return true
+}
+
+// valueOrigins: where the value v (used in fn) comes from, following parameters to the arguments at the call sites
+// inside the package and fields of by-value parameter objects to what the composite literal stored in them. The
+// origins returned are parameters without in-package callers (the entry points' own parameters), constants, or
+// whatever else the value is computed from.
+func (p *Prog) valueOrigins(v ssa.Value, fn *ssa.Function, depth int) []ssa.Value {
+	if depth > 5 {
+		return []ssa.Value{v}
+	}
+	switch t := v.(type) {
+	case *ssa.Parameter:
+		pi := -1
+		for i, q := range fn.Params {
+			if q == t {
+				pi = i
+			}
+		}
+		sites, asValue := p.staticCallSites(fn)
+		var out []ssa.Value
+		n := 0
+		for _, s := range sites {
+			caller := s.Parent()
+			if caller.Pkg != fn.Pkg || pi < 0 || pi >= len(s.Common().Args) {
+				continue
+			}
+			n++
+			out = append(out, p.valueOrigins(s.Common().Args[pi], caller, depth+1)...)
+		}
+		if n == 0 || asValue {
+			return []ssa.Value{v}
+		}
+		return out
+	case *ssa.UnOp:
+		if t.Op != token.MUL {
+			return []ssa.Value{v}
+		}
+		switch a := t.X.(type) {
+		case *ssa.FieldAddr:
+			return p.fieldOrigins(a.X, a.Field, fn, depth)
+		case *ssa.Alloc:
+			// a spilled local: what was stored into it
+			var out []ssa.Value
+			for _, r := range *a.Referrers() {
+				if st, ok := r.(*ssa.Store); ok && st.Addr == ssa.Value(a) {
+					out = append(out, p.valueOrigins(st.Val, fn, depth+1)...)
+				}
+			}
+			if len(out) > 0 {
+				return out
+			}
+		}
+	case *ssa.Field:
+		return p.fieldOrigins(t.X, t.Field, fn, depth)
+	}
+	return []ssa.Value{v}
+}
+
+// fieldOrigins: the origins of field number fi of the struct x (a struct value, or the address of one).
+func (p *Prog) fieldOrigins(x ssa.Value, fi int, fn *ssa.Function, depth int) []ssa.Value {
+	// the struct's cell: an Alloc filled by a composite literal or by a whole-struct store of a parameter
+	var cell *ssa.Alloc
+	switch t := x.(type) {
+	case *ssa.Alloc:
+		cell = t
+	case *ssa.UnOp:
+		if al, ok := t.X.(*ssa.Alloc); ok && t.Op == token.MUL {
+			cell = al
+		}
+	case *ssa.Parameter:
+		// a by-value struct parameter: the same field of the argument at every in-package call site
+		var out []ssa.Value
+		for _, o := range p.valueOrigins(t, fn, depth+1) {
+			if o == ssa.Value(t) {
+				return []ssa.Value{x}
+			}
+			owner := instrParent(o)
+			if owner == nil {
+				if prm, ok := o.(*ssa.Parameter); ok {
+					owner = prm.Parent()
+				}
+			}
+			if owner == nil {
+				return []ssa.Value{x}
+			}
+			out = append(out, p.fieldOrigins(o, fi, owner, depth+1)...)
+		}
+		return out
+	}
+	if cell == nil {
+		return []ssa.Value{x}
+	}
+	var out []ssa.Value
+	for _, r := range *cell.Referrers() {
+		switch t := r.(type) {
+		case *ssa.FieldAddr:
+			if t.Field != fi {
+				continue
+			}
+			for _, r2 := range *t.Referrers() {
+				if st, ok := r2.(*ssa.Store); ok && st.Addr == ssa.Value(t) {
+					out = append(out, p.valueOrigins(st.Val, fn, depth+1)...)
+				}
+			}
+		case *ssa.Store:
+			if t.Addr == ssa.Value(cell) {
+				// the whole struct stored: a parameter spilled on entry, or a copied value
+				out = append(out, p.fieldOrigins(t.Val, fi, fn, depth+1)...)
+			}
+		}
+	}
+	if len(out) == 0 {
+		return []ssa.Value{x}
+	}
+	return out
 }
